@@ -165,3 +165,56 @@ contract("bacpypes.app:ApplicationIOController.process_io",
     modifies=["self.queue_by_address", "self.ghost_queue.active_iocb", "self.ghost_queue.state", "self.ghost_queue.ioQueue.queue", "self.ghost_queue.ioQueue.notempty.flag", "iocb.*"],
     max_paths=20000,
     note="bounded in structure: 0..2 queued requests")
+
+# -- completion is idempotent: a request has one outcome whatever arrives later (late reply after a timeout, abort after completion) ---------
+
+def LoneIOCB():
+    def build(b, name):
+        io = _iocb(b, name, OneOf(IO_PENDING, IO_ACTIVE, IO_COMPLETED, IO_ABORTED).build(b, name + '.ioState'), 5)
+        io.ioResponse = Tok('earlier response') if io.ioState == IO_COMPLETED else None
+        io.ioError = Tok('earlier error') if io.ioState == IO_ABORTED else None
+        return io
+    return Fn(build)
+
+def once_ok(iocb, kind, msg, old_state, old_response, old_error, done):
+    if old_state in (IO_COMPLETED, IO_ABORTED):
+        # already has its outcome: nothing changes, nobody is notified again
+        return iocb.ioState == old_state and iocb.ioResponse is old_response and iocb.ioError is old_error and len(done) == 0
+    if kind == 'complete':
+        return iocb.ioState == IO_COMPLETED and iocb.ioResponse is msg and iocb.ioError is None and len(done) == 1 and done[0][0] is iocb
+    return iocb.ioState == IO_ABORTED and iocb.ioError is msg and iocb.ioResponse is None and len(done) == 1 and done[0][0] is iocb
+
+for _kind, _fn in (('complete', 'complete_io'), ('abort', 'abort_io')):
+    contract("bacpypes.iocb:IOController.%s" % _fn,
+        params={"self": Obj("bacpypes.iocb:IOController", name=Const('ctl')), "iocb": LoneIOCB(), ("msg" if _kind == 'complete' else "err"): Token()},
+        ensures=["once_ok(iocb, %r, %s, old(iocb.ioState), old(iocb.ioResponse), old(iocb.ioError), trace('iocb_done'))" % (_kind, "msg" if _kind == 'complete' else "err")],
+        modifies=["iocb.ioState", "iocb.ioResponse", "iocb.ioError"],
+        note="a request gets its outcome once; later completions / aborts are ignored")
+
+# -- the queue advances: the next waiting request is started, in order ---------------------------------------------------------------------
+
+def IdleQueue():
+    """a SieveQueue of an application: idle or busy (symbolic), 0..2 waiting requests"""
+    def build(b, name):
+        app = SubmitApp().build(b, name + '.app')
+        q = app.ghost_queue
+        for item in q.ioQueue.queue:
+            item[1].args = (ConfReq(pduData=Const(None), pduDestination=Const(A)).build(b, '%s.req%d' % (name, item[1].ioID)),)
+        return q
+    return Fn(build)
+
+def advanced_ok(q, old_active, old_pending, old_state, sent, deferred_calls):
+    if old_state != CTRL_IDLE or len(old_pending) == 0:
+        # busy, or nothing waits: nothing happens
+        return q.active_iocb is old_active and pending(q) == old_pending and len(sent) == 0 and len(deferred_calls) == 0
+    first = old_pending[0]
+    return (q.active_iocb is first and first.ioState == IO_ACTIVE and pending(q) == old_pending[1:] and q.state == CTRL_ACTIVE
+            and len(sent) == 1 and sent[0][0] is first.args[0] and first.ioQueue is None)
+
+contract("bacpypes.iocb:IOQController._trigger",
+    params={"self": IdleQueue()},
+    requires=["(self.active_iocb is None) == (self.state == CTRL_IDLE)", "self.active_iocb is None or self.active_iocb.ioState == IO_ACTIVE"],
+    ensures=["advanced_ok(self, old(self.active_iocb), old(pending(self)), old(self.state), trace('sent'), trace('deferred'))"],
+    modifies=["self.active_iocb", "self.state", "self.ioQueue.queue", "self.ioQueue.queue[:]", "self.ioQueue.notempty.flag"]
+             + ["self.ioQueue.queue[%d][1].%s" % (i, f) for i in range(2) for f in ("ioState", "ioQueue")],
+    note="bounded in structure: 0..2 waiting requests")
